@@ -45,6 +45,12 @@ fn main() {
             let (repro, trace) = match r["engine"].as_str() {
                 Some("connx") => connx::replay(r),
                 Some("connw") => connw::replay(r),
+                Some("c05") => props::c05::replay(r),
+                Some("c14") => props::c14::replay(r),
+                Some("c15line") | Some("c15block") => props::c15::replay(r),
+                Some("c16tok") | Some("c16uri") => props::c16::replay(r),
+                Some("c17") => props::c17::replay(r),
+                Some("entry") => props::c03::replay_entry(r),
                 Some("socketpair") => props::c12::replay_socketpair(r),
                 _ => {
                     eprintln!("unknown engine in replay file");
